@@ -188,6 +188,14 @@ var relayoutTails = [][]byte{
 	{0x80, 0xbf, 0x80, '"', ']', '}', ' ', ' ', ' ', ' ', ' '},
 }
 
+// relayoutCopy is relayout for callers that go on to overwrite their copy of the input: always a private copy.
+func relayoutCopy(data []byte) []byte {
+	if concMode {
+		return append([]byte(nil), data...)
+	}
+	return relayout(data)
+}
+
 func relayout(data []byte) []byte {
 	if concMode {
 		return data // the goroutines of the concurrent driver share their input bytes (laid out by the driver)
